@@ -73,6 +73,11 @@ def check(beh):
             return [], dict(degenerate=True)
     try:
         op = bind.build(beh["term"], dtype)
+        sden = d.get("sden", 1)
+        if sden != 1:
+            # the operator under test is (1 / sden) * term; results are scaled back below so that every relation is judged against A
+            op = type(op)(op.tensor / sden) if beh["term"]["cls"] == "Dense" else op * (1.0 / sden)
+        rs = float(sden) ** 0.5
         with contextlib.ExitStack() as st:
             st.enter_context(S.max_cholesky_size(thr["max_chol"]))
             st.enter_context(S.max_root_decomposition_size(thr["max_root"]))
@@ -99,6 +104,17 @@ def check(beh):
                 fails.append("%s: relative error %.3g > %.3g" % (what, e, t))
 
         D = lambda x: numeric.dense(x).to(torch.float64)
+        if sden != 1:
+            if rel in ("LLt", "RtR", "RRt"):
+                res = D(res) * rs
+            elif rel == "RRtInv":
+                res = D(res) / rs
+            elif rel == "eig":
+                res = (res[0] * sden, res[1])
+            elif rel == "eigvals":
+                res = res * sden
+            elif rel == "svd":
+                res = (res[0], res[1] * sden, res[2])
         if rel in ("LLt", "RtR"):
             L = D(res)
             if not torch.equal(torch.tril(L) if rel == "LLt" else torch.triu(L), L):
